@@ -185,3 +185,7 @@ Proof.
   apply Forall_forall. intros y Hy. apply below_In in Hy.
   rewrite Forall_forall in Hf. apply Hf; tauto.
 Qed.
+
+(* rewriting modulo the aliases bytes = list byte = list N (implicit arguments differ syntactically) *)
+Ltac nrw t := let H := fresh "Hrw" in pose proof t as H; unfold bytes, byte in H |- *; rewrite H; clear H.
+Ltac nrw_in t H0 := let H := fresh "Hrw" in pose proof t as H; unfold bytes, byte in H, H0; rewrite H in H0; clear H.
